@@ -168,6 +168,16 @@ namespace xtl
 
         template <class CTO, class CBO>
         xoptional_array(size_type s, const xoptional<CTO, CBO>& v);
+
+        ~xoptional_array() = default;
+
+        xoptional_array(const xoptional_array&) = default;
+        xoptional_array& operator=(const xoptional_array&) = default;
+
+        // The values of a std::array cannot be moved out of it, so the flags stay with them:
+        // moving an xoptional_array copies it and leaves the source unchanged.
+        xoptional_array(xoptional_array&& rhs);
+        xoptional_array& operator=(xoptional_array&& rhs);
     };
 
     /********************
@@ -508,6 +518,19 @@ namespace xtl
     xoptional_array<T, I, BC>::xoptional_array(size_type s, const base_value_type& v)
         : base_type(s, v)
     {
+    }
+
+    template <class T, std::size_t I, class BC>
+    xoptional_array<T, I, BC>::xoptional_array(xoptional_array&& rhs)
+        : base_type(static_cast<const base_type&>(rhs))
+    {
+    }
+
+    template <class T, std::size_t I, class BC>
+    auto xoptional_array<T, I, BC>::operator=(xoptional_array&& rhs) -> xoptional_array&
+    {
+        base_type::operator=(static_cast<const base_type&>(rhs));
+        return *this;
     }
 
     template <class T, std::size_t I, class BC>
